@@ -438,6 +438,27 @@ fn handle_line(sess: &mut Option<Session>, scratch: &str, line: &str) -> String 
                 .collect();
             format!("STATE {}", parts.join("|"))
         }
+        "CTXCALL" => {
+            // CTXCALL <funcall|map|filter|reduce> <text>: the text evaluates to a list (FUNC ARG2 [ARG3]) whose values are
+            // handed to TulispContext::funcall / map / filter / reduce
+            let (op, text) = match rest.find(' ') {
+                Some(i) => (&rest[..i], unescape(&rest[i + 1..])),
+                None => (rest, String::new()),
+            };
+            let v = match s.ctx.eval_string(&text) {
+                Ok(v) => v,
+                Err(e) => return fmt_result(&mut s.ctx, Err(e), "canon"),
+            };
+            let parts: Vec<TulispObject> = v.base_iter().collect();
+            let r = match (op, parts.len()) {
+                ("funcall", 2) => s.ctx.funcall(&parts[0], &parts[1]),
+                ("map", 2) => s.ctx.map(&parts[0], &parts[1]),
+                ("filter", 2) => s.ctx.filter(&parts[0], &parts[1]),
+                ("reduce", 3) => s.ctx.reduce(&parts[0], &parts[1], &parts[2]),
+                _ => Err(Error::new(ErrorKind::TypeMismatch, "bad CTXCALL".to_string())),
+            };
+            fmt_result(&mut s.ctx, r, "canon")
+        }
         "INVENTORY" => {
             // every interned symbol that is bound, with its binding depth and (canonical) value
             let names: Vec<String> = s
